@@ -52,6 +52,10 @@ Lemma gen_dataset_getitem_spec (rows : list A) a b :
   (forall r, gen_dataset_getitem rows (a, b) = Some r -> gen_dataset_len r = Some (Z.of_nat (length (py_slice rows a b)))).
 Proof. split; [reflexivity|]. intros r H. injection H as <-. reflexivity. Qed.
 
+(* num_examples: the row count of the (first) column, with or without validation *)
+Lemma gen_num_examples_spec (rows : list A) v : gen_num_examples rows v = Some (Z.of_nat (length rows)).
+Proof. unfold gen_num_examples. destruct v; reflexivity. Qed.
+
 (* BatchPreprocessor.__call__: the `for f in self._fns: out = f(out)` loop is the left
    fold in registration order; the empty-chain shortcut returns the input *)
 Lemma gen_preprocessor_call_fold (fns : list (list A -> list A)) rows :
@@ -117,3 +121,27 @@ Lemma padded_view_checked_rowwise (f : A -> A) raw bs nb : 1 <= bs ->
 Proof. intros Hbs. apply padded_view_checked_eq; [intros l; apply map_length|exact Hbs]. Qed.
 
 End Pad.
+
+(* assert_consistent_rows over the row counts of the columns (dict order): succeeds exactly
+   when there is at least one column and all columns have the first one's row count.  This
+   is what justifies modelling an Examples dict by ONE abstract column of rows. *)
+Lemma gen_assert_consistent_rows_spec (sizes : list Z) :
+  gen_assert_consistent_rows sizes = Some tt <->
+  exists s rest, sizes = s :: rest /\ Forall (fun v => v = s) rest.
+Proof.
+  unfold gen_assert_consistent_rows. destruct sizes as [|s rest].
+  - split; [discriminate|]. intros (s & rest & E & _). discriminate.
+  - destruct (forallb (fun v => negb (negb (v =? s))) rest) eqn:E.
+    + split; [intros _|reflexivity]. exists s, rest. split; [reflexivity|].
+      apply Forall_forall. intros v Hv. rewrite forallb_forall in E. specialize (E v Hv).
+      rewrite Bool.negb_involutive in E. now apply Z.eqb_eq.
+    + split; [discriminate|]. intros (s' & rest' & Eq & Hall). injection Eq as <- <-.
+      assert (forallb (fun v => negb (negb (v =? s))) rest = true); [|congruence].
+      apply forallb_forall. intros v Hv. rewrite Forall_forall in Hall. rewrite (Hall v Hv).
+      now rewrite Bool.negb_involutive, Z.eqb_refl.
+Qed.
+
+(* documented defaults of the hparams dataclasses (fields translated from the class bodies) *)
+Lemma hparams_defaults_c03 :
+  hp_batch_drop_remainder_default = false /\ hp_padded_num_batch_size_buckets_default = 1.
+Proof. split; reflexivity. Qed.
